@@ -686,6 +686,7 @@ int tls13_process_client_hello_exts(const uint8_t *exts, size_t extslen,
 			break;
 		*/
 		case TLS_extension_supported_versions:
+			len = *server_exts_len; // what this response would bring the output to
 			if (tls13_process_client_supported_versions(ext_data, ext_datalen, NULL, &len) != 1
 				|| len > server_exts_maxlen) {
 				error_print();
@@ -694,8 +695,10 @@ int tls13_process_client_hello_exts(const uint8_t *exts, size_t extslen,
 			tls13_process_client_supported_versions(ext_data, ext_datalen, &server_exts, server_exts_len);
 			break;
 		case TLS_extension_key_share:
-			if (tls13_process_client_key_share(ext_data, ext_datalen, server_ecdhe_key, client_ecdhe_public, &server_exts, server_exts_len) != 1
-				|| len > server_exts_maxlen) {
+			len = *server_exts_len;
+			if (tls13_process_client_key_share(ext_data, ext_datalen, server_ecdhe_key, client_ecdhe_public, NULL, &len) != 1
+				|| len > server_exts_maxlen
+				|| tls13_process_client_key_share(ext_data, ext_datalen, server_ecdhe_key, client_ecdhe_public, &server_exts, server_exts_len) != 1) {
 				error_print();
 				return -1;
 			}
